@@ -166,8 +166,10 @@ def slice_normalisation(ctx, tk, rule):
             ctx.unknown(rule, h, "selected-length computation uses clamped start/stop", "L = stop - start over clamped bounds not recognised", node=r.ast, engine="E8")
             continue
         stop, start = L.a[1], L.a[2]
-        whatc = "the start used for the selected length is clamped into [0, len(row)-1]"
-        _interval_rule(ctx, rule, h, ha, start, is_N, lambda t: False, (0, 0), (1, -1), whatc, r.ast, "len-start", modes=("pos",))
+        # lower bound -1 (= "before the first cell", the resting point of a backward slice) or 0: both give the right
+        # length because a start below 0 is masked to length 0; the upper bound is what keeps lengths within the row
+        whatc = "the start used for the selected length is clamped into [-1, len(row)-1]"
+        _interval_rule(ctx, rule, h, ha, start, is_N, lambda t: False, (0, -1), (1, -1), whatc, r.ast, "len-start", modes=("pos",))
 
 
 def _interval_rule(ctx, rule, f, fa, term, is_N, is_subj, lo_req, hi_req, what, node, key, modes=("zero", "pos")):
@@ -419,3 +421,43 @@ def wrap_branch_strictness(ctx, rule, f, fa, term, is_N, is_subj, node, key):
         ctx.decide(rule, f, what, True if ok is True else (False if ok is False else None),
                    "the wrap `%s` is taken for bounds up to %s: a bound of 0 becomes the row length" % (a, iv[1][1] if isinstance(iv[1], tuple) and len(iv[1]) == 2 else iv[1]),
                    node=node, key=key + ":wrap", engine="E8")
+
+
+def empty_row_rule(ctx, tk, rule):
+    """E9: a row without cells contributes no cell to any column slice.  RaggedView2.col_slice is interpreted
+    abstractly for N == 0 under every sign case of (start, stop, step): the row length it returns must be 0."""
+    from .absint import Interp, Iv, NONE, SliceV, Obj, INF
+    cls = ctx.program.cls("raggedshape.RaggedView2")
+    m = cls.lookup("col_slice")
+    what = "a column slice selects nothing from a row without cells"
+    bounds = [("None", NONE), ("negative", Iv(-INF, -1)), ("non-negative", Iv(0, INF))]
+    steps = [("None", NONE, None), ("negative", Iv(0, 0, 1), (-INF, -1)), ("positive", Iv(0, 0, 1), (1, INF))]
+    n_dec = 0
+    for sn, sv, srange in steps:
+        for an, av in bounds:
+            for bn, bv in bounds:
+                I = Interp(ctx, cls, {"lengths": Iv(0, 0)}, sym_range=srange)
+                try:
+                    res = I.run(m, [SliceV(av, bv, sv)], {})
+                except RecursionError:
+                    res = None
+                key = "empty-row:start=%s,stop=%s,step=%s" % (an, bn, sn)
+                if not isinstance(res, Obj) or len(res.args) < 2:
+                    ctx.unknown(rule, m, what, "result of col_slice not recognised for %s" % key, key=key, engine="E9")
+                    continue
+                n = I.num(res.args[1]) if isinstance(res.args[1], Iv) else None
+                if n is None:
+                    ctx.unknown(rule, m, what, "row length not bounded for %s" % key, key=key, engine="E9")
+                    continue
+                lo, hi = n
+                if lo == hi == 0:
+                    n_dec += 1
+                    ctx.holds(rule, m, what, key=key, engine="E9")
+                elif lo > 0 or hi < 0:
+                    n_dec += 1
+                    ctx.violated(rule, m, what, "for an empty row and a slice with start %s, stop %s, step %s the selected length evaluates to [%s, %s]: "
+                                 "the view addresses a cell of a neighbouring row (reads return it, assignments overwrite it)" % (an, bn, sn, lo, hi),
+                                 node=res.node, key=key, engine="E9")
+                else:
+                    ctx.unknown(rule, m, what, "row length in [%s, %s] for %s" % (lo, hi, key), key=key, engine="E9")
+    return n_dec
